@@ -23,6 +23,7 @@ type C04Case struct {
 	Unavail     []string `json:"unavail"`     // referenced variables not in Avail, sorted
 	Completions [][]m.V  `json:"completions"` // values for Unavail, one row per completion
 	Masks       []int    `json:"masks"`
+	Raw         bool     `json:"raw,omitempty"` // the fetcher hands some integers over as Go int (un-normalised)
 	Src         string   `json:"src"`
 }
 
@@ -157,7 +158,7 @@ func genC04(t *rapid.T) C04Case {
 			unboundNames = append(unboundNames, v.Name)
 		}
 	}
-	c := C04Case{U: *u, Tree: tree, Src: m.Render(tree)}
+	c := C04Case{U: *u, Tree: tree, Src: m.Render(tree), Raw: rapid.IntRange(0, 5).Draw(t, "raw") == 0}
 	c.Avail = genTrySplit(t, tree, unboundNames)
 	av := availSet(c.Avail)
 	for _, n := range tree.VarNames() {
@@ -202,6 +203,7 @@ func checkC04(c C04Case, r *Rec) *Violation {
 		// one context for the whole sequence of this configuration: availability grows on the
 		// same Ctx (as after VariableFetcher.Set), it is not a fresh Ctx every time
 		seqF := NewFetcher(u, cc, log)
+		seqF.Raw = c.Raw
 		seqCtx := seqF.Ctx()
 		try := func(av map[string]bool) Outcome {
 			seqF.Avail = av
@@ -215,6 +217,7 @@ func checkC04(c C04Case, r *Rec) *Violation {
 		{
 			f := NewFetcher(u, cc, log)
 			f.Avail = avail
+			f.Raw = c.Raw
 			var bres bool
 			ob := Safe(func() (eval.Value, error) { b, err := e.TryEvalBool(f.Ctx()); bres = b; return b, err })
 			switch {
@@ -238,6 +241,7 @@ func checkC04(c C04Case, r *Rec) *Violation {
 		// everything available: TryEval and Eval agree
 		if len(c.Unavail) == 0 {
 			f := NewFetcher(u, cc, log)
+			f.Raw = c.Raw
 			oe := Safe(func() (eval.Value, error) { return e.Eval(f.Ctx()) })
 			if !SameOutcomeLoose(o, oe) {
 				return Violf("C04: all variables are available, yet TryEval and Eval disagree\n%s\nTryEval=%v\nEval=%v", describe(), o, oe)
@@ -259,7 +263,7 @@ func checkC04(c C04Case, r *Rec) *Violation {
 			for _, n := range c.Unavail {
 				delete(fail, n) // the completion assigns it a value
 			}
-			f := &Fetcher{Vars: vars, Fail: fail, Log: log}
+			f := &Fetcher{Vars: vars, Fail: fail, Log: log, Raw: c.Raw}
 			oe := Safe(func() (eval.Value, error) { return e.Eval(f.Ctx()) })
 			completionsRun++
 			if oe.Panic != nil {
